@@ -47,6 +47,9 @@ pub enum EvB {
     Settle(usize, usize),
     /// receiver.disposer().accept / release (delivery i): the handle that disposes without the receiver
     Disposer(Op, usize),
+    /// rcv-settle-mode FIRST: the scripted sender settles deliveries first..=last of its own accord, BEFORE the
+    /// application has applied an outcome (a sender may settle whenever it likes): disposition(role=sender, settled=true)
+    SettleEarly(usize, usize),
 }
 
 impl EvB {
@@ -57,6 +60,8 @@ impl EvB {
             EvB::Disposer(op, i) => format!("disposer.{op:?}({i})"),
             EvB::Settle(a, b) if a == b => format!("sender-settles({a})"),
             EvB::Settle(a, b) => format!("sender-settles({a}..{b})"),
+            EvB::SettleEarly(a, b) if a == b => format!("sender-settles-unasked({a})"),
+            EvB::SettleEarly(a, b) => format!("sender-settles-unasked({a}..{b})"),
         }
     }
 }
@@ -82,6 +87,8 @@ pub fn core_alphabet_b(rcv: Rcv) -> Vec<EvB> {
     ];
     if rcv == Rcv::Second {
         v.extend([EvB::Settle(0, 0), EvB::Settle(1, 2), EvB::Settle(0, 2), EvB::Settle(0, 4)]);
+    } else {
+        v.extend([EvB::SettleEarly(0, 0), EvB::SettleEarly(1, 2)]);
     }
     v
 }
@@ -114,6 +121,10 @@ pub fn alphabet_b(rcv: Rcv) -> Vec<EvB> {
         v.push(EvB::Settle(0, 2));
         v.push(EvB::Settle(3, 4));
         v.push(EvB::Settle(0, 4));
+    } else {
+        v.push(EvB::SettleEarly(0, 0));
+        v.push(EvB::SettleEarly(1, 2));
+        v.push(EvB::SettleEarly(2, 4));
     }
     v
 }
@@ -148,6 +159,8 @@ struct RDl {
     settled: bool,
     /// the application named this delivery in another dispose call after it had been settled
     disposed_again_after_settlement: bool,
+    /// the sender settled it before the receiver said anything (legal in every mode)
+    settled_unasked: bool,
 }
 
 #[derive(Debug, Clone, Default)]
@@ -337,6 +350,17 @@ pub async fn scenario_b(base: u32, rcv: Rcv, events: Vec<EvB>) -> ObsB {
                     }
                 }
             }
+            EvB::SettleEarly(a, b) => {
+                if rcv != Rcv::First || (*a..=*b).any(|k| dls[k].settled || dls[k].disposed.is_some()) {
+                    break;
+                }
+                let disp = Disposition { role: Role::Sender, first: base.wrapping_add(*a as u32), last: if a == b { None } else { Some(base.wrapping_add(*b as u32)) }, settled: true, state: None, batchable: false };
+                c.peer.send(ch, Performative::Disposition(disp));
+                for k in *a..=*b {
+                    dls[k].settled = true;
+                    dls[k].settled_unasked = true;
+                }
+            }
             EvB::Settle(a, b) => {
                 // a sender settles after it has learnt the outcome: enabled once every covered delivery's
                 // outcome is on the wire
@@ -437,7 +461,7 @@ pub async fn scenario_b(base: u32, rcv: Rcv, events: Vec<EvB>) -> ObsB {
             let others: Vec<usize> = extra.iter().copied().filter(|k| !named.contains(k)).collect();
             if !settled_again.is_empty() {
                 obs.fails.push((
-                    if settled_again.iter().all(|k| again_before.contains(k)) { "receiver-disposition-for-settled-delivery[after-repeated-dispose]".to_string() } else { "receiver-disposition-for-settled-delivery".to_string() },
+                    if settled_again.iter().any(|k| dls[*k].settled_unasked) { "receiver-disposition-for-settled-delivery[sender settled unasked]".to_string() } else if settled_again.iter().all(|k| again_before.contains(k)) { "receiver-disposition-for-settled-delivery[after-repeated-dispose]".to_string() } else { "receiver-disposition-for-settled-delivery".to_string() },
                     format!("after {}: the dispositions of this step cover deliveries {:?}, which are already settled", ev.name(), settled_again),
                     step,
                 ));
@@ -479,11 +503,11 @@ pub async fn scenario_b(base: u32, rcv: Rcv, events: Vec<EvB>) -> ObsB {
                             let held = keys.contains(&dl.tag);
                             if dl.settled && held {
                                 obs.fails.push((
-                                    if dl.disposed_again_after_settlement { "receiver-retains-settled-delivery[after-repeated-dispose]".to_string() } else { "receiver-retains-settled-delivery".to_string() },
+                                    if dl.settled_unasked { "receiver-retains-settled-delivery[sender settled unasked]".to_string() } else if dl.disposed_again_after_settlement { "receiver-retains-settled-delivery[after-repeated-dispose]".to_string() } else { "receiver-retains-settled-delivery".to_string() },
                                     format!(
                                         "delivery {k} (id {}) is settled ({}) but the receiver's attach after a non-closing detach + resume still lists it in `unsettled`",
                                         base.wrapping_add(k as u32),
-                                        if rcv == Rcv::First { "by the receiver's own settled disposition" } else { "by the sender's settling disposition" }
+                                        if dl.settled_unasked { "by the sender's unasked settling disposition" } else if rcv == Rcv::First { "by the receiver's own settled disposition" } else { "by the sender's settling disposition" }
                                     ),
                                     n,
                                 ));
